@@ -329,7 +329,8 @@ func (d TTMLInDuration) duration() (o time.Duration) {
 	}
 	o = d.d
 	if d.frames > 0 && d.framerate > 0 {
-		o += time.Duration(float64(d.frames) / float64(d.framerate) * float64(time.Second.Nanoseconds()))
+		// (integer arithmetic: 209 frames at 25 fps are exactly 8.36s, float64 gives 8.359999999s)
+		o += time.Duration(d.frames) * time.Second / time.Duration(d.framerate)
 	}
 	return
 }
